@@ -182,6 +182,9 @@ def run(ctx):
                 want = module_facts(src)
                 with torch.no_grad():
                     want_out = [lifecycle.out_fp(src(x)) for x in probes]
+                # the caller's dict is the caller's: a load must leave its keys and values as they were (the same dict may be
+                # loaded into several models)
+                sd2_before = {k_: (v_.clone() if isinstance(v_, torch.Tensor) else v_) for k_, v_ in sd2.items()}
                 try:
                     tgt, _ = lifecycle.build(kind, wd)
                     if target == "same":
@@ -226,6 +229,28 @@ def run(ctx):
                                   dict(desc=desc, msg=str(e)[:400]))
                     break
                 ctx.count("loads_compared")
+                badsd = sd_equal(sd2_before, dict(sd2))
+                if badsd:
+                    ctx.violation(dict(sig0, kind="load_modifies_the_given_state_dict", target=target), dict(desc=desc, keys=badsd[:8]))
+                elif target != "same" and r.random() < 0.35:
+                    # the same dict object loaded into a second model
+                    try:
+                        tgt2, _ = lifecycle.build(kind, wd)
+                        if target == "default":
+                            oq.quantize(tgt2)
+                            tgt2.load_state_dict(sd2)
+                        else:
+                            oq.requantize(tgt2, sd2)
+                        got2 = module_facts(tgt2)
+                        with torch.no_grad():
+                            got2_out = [lifecycle.out_fp(tgt2(x)) for x in probes]
+                        ctx.count("second_loads_of_one_dict")
+                        if fp.diff(want, got2) or got2_out != want_out:
+                            ctx.violation(dict(sig0, kind="second_load_of_one_dict_differs", target=target),
+                                          dict(desc=desc, keys=fp.diff(want, got2)[:8]))
+                    except Exception as e:
+                        ctx.violation(dict(sig0, kind="second_load_of_one_dict_raises", exc=type(e).__name__, target=target),
+                                      dict(desc=desc, msg=str(e)[:300]))
                 d = fp.diff(want, got)
                 if d:
                     kinds = sorted({k.rsplit(".", 1)[-1] if not k.startswith("device:") else "device" for k in d})
